@@ -15,8 +15,10 @@ One worker ("families" = engine × move set × seed × N):
               equality of the issued jobs (ensemble, path, stream identities).
 Several workers (completion order lifo / fifo / seeded random, identical in both runs):
   the jobs issued first after a restart are exactly restart.toml's `locked` at the stop, in order, each holding its
-  ensemble slot locked with its path; restart.toml's `locked` at every stop equals the jobs that were in flight when
-  it was written (so a re-issued job still in flight is recorded again); the whole chain run twice is byte-identical.
+  ensemble slot locked with its path and drawing from the SAME streams (seed, (ordinal, j)) / (seed, (ordinal, j, 0)) it
+  had before the stop; restart.toml's `locked` at every stop equals the jobs that were in flight when it was written,
+  with the ordinals of their streams (so a re-issued job still in flight is recorded again, with the same ordinal);
+  the whole chain run twice is byte-identical.
 Model side: repex_tie.run_history (real REPEX_state, scripted outcomes) with the same (n, W, restart chain) shapes
 against the Lean driver.
 """
@@ -276,22 +278,31 @@ def check_multi(ctx, fam, W, policy, kills, d, d2, res, res2):
     by_leg = {}
     for ev in log:
         by_leg.setdefault(ev["leg"], []).append(ev)
-    expected_recorded = None
+    expected_recorded = None      # [(slots, paths, ordinal, submit event)] in flight when the last restart file was written
     reissued_prev = []
     for leg in sorted(by_leg):
         evs = by_leg[leg]
         start = evs[0]
         subs = [e for e in evs if e["ev"] == "submit"]
         if leg > 0:
-            recorded = [(list(es), [str(p) for p in ps]) for es, ps in (start.get("recorded_locked") or [])]
-            # (a) what the stop recorded = the jobs in flight when that restart file was written
-            if expected_recorded is not None and recorded != expected_recorded:
-                missing = [x for x in expected_recorded if x not in recorded]
-                sig = ("C06:restart-chain:reissued-job-not-recorded" if any(x in reissued_prev for x in missing)
-                       else "C06:restart:recorded-jobs-differ-from-in-flight")
-                ctx.fail(sig, f"{tag}: restart.toml written before restart {leg} lists locked={recorded}, but in flight were "
-                              f"{expected_recorded}", dict(rep, restart=leg))
-            # (b) the first jobs issued are exactly the recorded ones, in order
+            raw = start.get("recorded_locked") or []
+            recorded = [(list(r[0]), [str(p) for p in r[1]]) for r in raw]
+            rec_ord = [(int(r[2]) if len(r) > 2 else None) for r in raw]
+            # (a) what the stop recorded = the jobs in flight when that restart file was written, with their ordinals
+            if expected_recorded is not None:
+                want_rec = [(x[0], x[1]) for x in expected_recorded]
+                if recorded != want_rec:
+                    missing = [x for x in want_rec if x not in recorded]
+                    sig = ("C06:restart-chain:reissued-job-not-recorded" if any(x in reissued_prev for x in missing)
+                           else "C06:restart:recorded-jobs-differ-from-in-flight")
+                    ctx.fail(sig, f"{tag}: restart.toml written before restart {leg} lists locked={recorded}, but in flight were "
+                                  f"{want_rec}", dict(rep, restart=leg))
+                elif rec_ord != [x[2] for x in expected_recorded]:
+                    sig = ("C06:restart:ordinal-not-recorded" if any(o is None for o in rec_ord)
+                           else "C06:restart:recorded-ordinals-differ-from-in-flight")
+                    ctx.fail(sig, f"{tag}: restart.toml written before restart {leg} records the stream ordinals {rec_ord} for "
+                                  f"{recorded}; the jobs in flight had {[x[2] for x in expected_recorded]}", dict(rep, restart=leg))
+            # (b) the first jobs issued are exactly the recorded ones, in order, with the streams they had before the stop
             m = min(len(recorded), W, fam["N"] - int(start["recorded_cstep"]))
             ctx.count(m, reissued="jobs")
             for i in range(m):
@@ -305,11 +316,32 @@ def check_multi(ctx, fam, W, policy, kills, d, d2, res, res2):
                 if not subs[i]["slots_ok"]:
                     ctx.fail("C06:reissue:slot-not-locked-with-path", f"{tag}: re-issued job {i} after restart {leg} does not hold "
                                                                       f"its ensemble slot locked with its path", dict(rep, restart=leg))
-                lk = [(list(a), list(b)) for a, b in subs[i]["locked"]]
+                if expected_recorded is not None and i < len(expected_recorded):
+                    before = expected_recorded[i][3]
+                    if (before["streams"], before["eng_streams"]) != (subs[i]["streams"], subs[i]["eng_streams"]):
+                        ctx.fail("C06:reissue:stream-differs-from-before-the-stop",
+                                 f"{tag}: job {want} re-issued after restart {leg} draws from {subs[i]['streams']} / "
+                                 f"{subs[i]['eng_streams']}; before the stop the same job had {before['streams']} / "
+                                 f"{before['eng_streams']}", dict(rep, restart=leg))
+                if rec_ord[i] is not None:
+                    wm = [[fam["seed"], rec_ord[i], j] for j in range(len(want[0]))]
+                    we = [[fam["seed"], rec_ord[i], j, 0] for j in range(len(want[0]))]
+                    if (subs[i]["streams"], subs[i]["eng_streams"]) != (wm, we):
+                        ctx.fail("C06:reissue:stream-not-the-recorded-ordinal",
+                                 f"{tag}: job {want} recorded with ordinal {rec_ord[i]} is re-issued with streams "
+                                 f"{subs[i]['streams']} / {subs[i]['eng_streams']}", dict(rep, restart=leg))
+                lk = [(list(x[0]), list(x[1])) for x in subs[i]["locked"]]
                 if (want[0], [str(p) for p in want[1]]) not in lk:
                     ctx.fail("C06:restart-chain:reissued-job-not-recorded",
                              f"{tag}: job {want} re-issued after restart {leg} is not in the sampler's `locked` list ({lk}): "
                              f"the next restart file will not know it", dict(rep, restart=leg))
+                else:
+                    ent = subs[i]["locked"][lk.index((want[0], [str(p) for p in want[1]]))]
+                    o = ent[2] if len(ent) > 2 else None
+                    if o != subs[i]["streams"][0][1]:
+                        ctx.fail("C06:restart-chain:reissued-job-recorded-with-other-ordinal",
+                                 f"{tag}: job {want} re-issued after restart {leg} runs on ordinal {subs[i]['streams'][0][1]} "
+                                 f"but is on record with {o}", dict(rep, restart=leg))
             reissued_now = [recorded[i] for i in range(m)]
         else:
             reissued_now = []
@@ -321,12 +353,12 @@ def check_multi(ctx, fam, W, policy, kills, d, d2, res, res2):
         pos_last_complete = max((i for i, e in enumerate(evs) if e["ev"] == "complete"), default=-1)
         early = {e["idx"] for i, e in enumerate(evs) if e["ev"] == "submit" and i < pos_last_complete}
         expected_recorded = []
-        for s in subs:
-            if s["idx"] in kill["in_flight"] and s["idx"] in early:
-                expected_recorded.append(([e + 1 for e in s["ens"]], [str(p) for p in s["pn"]]))
+        for sb in subs:
+            if sb["idx"] in kill["in_flight"] and sb["idx"] in early:
+                expected_recorded.append(([e + 1 for e in sb["ens"]], [str(p) for p in sb["pn"]], sb["streams"][0][1], sb))
         if pos_last_complete < 0:
             expected_recorded = None     # no restart file written in this leg
-        reissued_prev = reissued_now    # noqa: F841 (used in the next iteration)
+        reissued_prev = reissued_now
     return
 
 
@@ -472,7 +504,7 @@ def model_side(ctx, shapes):
         # what a restart re-issues, on the real REPEX_state: the first prep answers of a segment = recorded image
         for prev, sm in zip(chain, chain[1:]):
             img = prev.image or {}
-            rec = [([int(e) - 1 for e in es], [int(p) for p in ps]) for es, ps in img.get("locked", [])]
+            rec = [([int(e) - 1 for e in r[0]], [int(p) for p in r[1]]) for r in img.get("locked", [])]
             preps = [r for r, k in zip(sm.real, sm.kinds) if k == "prep"]
             for i, want in enumerate(rec[:min(len(rec), W, steps - int(img.get("cstep", 0)))]):
                 got = None
